@@ -1,6 +1,7 @@
 import SR.Drv.Loop
 import SR.Actor.Codec
 import SR.Actor.Spec
+import SR.Proofs.ReachRef
 /-! Driver commands for C06 (also used by C09 and C15).
 Model side: `graph`, `step`, `acts`, `init`. Oracle side: `o-graph` — the declarative step relation
 (`specStep`, `enabledSpec`, `specInit` of SR/Actor/Spec.lean) evaluated on the implementation's own walk,
@@ -81,7 +82,7 @@ def oGraph (sys : USys) (states : Array USt) (recs : List SExp) (initLog : List 
 def handle : Drv.Handler
   | "graph", [sys, bound] => do
     let sys ← sys? sys; let bound ← bound.nat?
-    pure (match walk sys bound with | none => "panic" | some w => ofWalk w)
+    pure (match SR.ReachRef.walkT sys bound with | none => "panic" | some w => ofWalk w)
   | "init", [sys] => do
     let sys ← sys? sys
     pure (match init sys with | none => "panic" | some st => toString (ofSt st))
